@@ -251,6 +251,10 @@ class Ctx(object):
             last = {}
 
             def body(case):
+                if self.time_up():
+                    # time budget used up: inconclusive for the remaining cases, never a violation
+                    self.inconclusive = True
+                    return
                 try:
                     self.run_case(fn, case)
                 except Violation as vio:
@@ -396,7 +400,7 @@ def _main(args, prop, seed, started, tmpbase):
         return 1
 
     tier = args.tier
-    budget = getattr(module, "BUDGET_S", (240, 3000))[0 if tier == "quick" else 1]
+    budget = getattr(module, "BUDGET_S", (150, 3000))[0 if tier == "quick" else 1]
     deadline = started + budget
     violations = {}
     # 1. replay tier: committed shrunk failures are re-run first, in-process
